@@ -115,6 +115,10 @@ func c03Handwritten() []c03Hand {
 		{ddl: []string{"CREATE TABLE `c` (`id` integer NOT NULL, `a` text NULL CHECK (a <> '),('), `b` text NULL CHECK (b <> 'it''s, (really)'), `note` text NULL DEFAULT ', (', PRIMARY KEY (`id`))"}},
 		{ddl: []string{"CREATE TABLE `c` (`id` integer NOT NULL, `note` text NULL DEFAULT ', CHECK (', PRIMARY KEY (`id`))"}, known: keyword},
 		{ddl: []string{"CREATE TABLE `i` (`id` integer NOT NULL, `path` text NULL, `note` text NULL DEFAULT 'x', PRIMARY KEY (`id`))", "CREATE INDEX `i_part` ON `i` (`path`) WHERE path <> '\\' AND note <> 'x'"}},
+		// DDL as people type it: SQLite stores the statement verbatim, keywords in any letter case
+		{ddl: []string{"create table lc (id integer primary key autoincrement, name text not null default 'x', n integer check (n > 0), unique (name))"}},
+		{ddl: []string{"Create Table Mc (Id Integer Primary Key AutoIncrement, Name Text Not Null Default 'x' Collate Nocase, G Integer Generated Always As (Id * 2) Stored) Strict"}},
+		{ddl: []string{"create table p (id integer primary key)", "create table wr (a integer not null, b text not null, p integer references p (id) on delete cascade, primary key (a, b)) without rowid", "create unique index wr_b on wr (b desc) where b <> ''"}},
 	}
 }
 
